@@ -10,10 +10,12 @@ _str = builtins.str
 
 
 class SChar:
-    __slots__ = ('bv', 'alpha')
+    """origin = (digit value term, base) when the character was produced by digit_char(): parsing it back with the
+    same base returns the digit term itself (char_digit(digit_char(d)) == d), which keeps round-trip terms small"""
+    __slots__ = ('bv', 'alpha', 'origin')
 
-    def __init__(self, bv, alpha):
-        self.bv, self.alpha = bv, frozenset(alpha)
+    def __init__(self, bv, alpha, origin=None):
+        self.bv, self.alpha, self.origin = bv, frozenset(alpha), origin
 
     def __repr__(self):
         return 'SChar{%s}' % ''.join(sorted(self.alpha))
@@ -200,7 +202,9 @@ class SStr:
                     bv = None
                     for a, b in sorted(m.items()):
                         bv = z3.BitVecVal(ord(b), 8) if bv is None else z3.If(c.bv == ord(a), z3.BitVecVal(ord(b), 8), bv)
-                    out.append(SChar(z3.simplify(bv), set(m.values())))
+                    keep = c.origin if (c.origin is not None and _all(a in _DIG_U or a in _DIG_L for a in c.alpha)
+                                        and _all(int(k, 36) == int(v, 36) for k, v in m.items())) else None
+                    out.append(SChar(z3.simplify(bv), set(m.values()), keep))
                 else:
                     raise OutOfModel('case mapping changes length')
         return norm(out)
@@ -282,13 +286,15 @@ def digit_char(val, base=16, upper=True):
         bv = z3.If(z3.ULT(v8, 10), v8 + 48, v8 + (55 if upper else 87))
     else:
         bv = v8 + 48
-    return SChar(z3.simplify(bv), tab[val.lo:val.hi + 1])
+    return SChar(z3.simplify(bv), tab[val.lo:val.hi + 1], (val, base))
 
 
 def char_digit(c, base):
     """character -> digit value (int | SInt); forks/raises ValueError on non-digits like int() does"""
     if _isinstance(c, _str):
         return int(c, base)
+    if c.origin is not None and c.origin[1] <= base:
+        return c.origin[0]
     ok = [a for a in c.alpha if a in _DIG_U[:base] or a in _DIG_L[:base]]
     if _len(ok) != _len(c.alpha):
         good = T.mk_bool(z3.Or(*[c.bv == ord(a) for a in ok])) if ok else False
@@ -330,7 +336,7 @@ def to_decimal(val):
     if val.lo < 0:
         if val < 0:
             return norm(['-'] + chars_of(to_decimal(T.ineg(val))))
-        val = T.refine(val, 0, val.hi) or val
+        val = T.refine_or(val, 0, val.hi)
     def nd(v):
         return _len(_str(v))
     lo, hi = nd(_max(val.lo, 0)), nd(val.hi)
